@@ -19,6 +19,7 @@ import (
 
 type seedResult struct {
 	ID      string   `json:"id"`
+	Benign  bool     `json:"benign,omitempty"` // a behaviour-preserving refactoring: the expected outcome is silence
 	Fired   bool     `json:"fired"`
 	Rules   []string `json:"rules,omitempty"`
 	Skipped string   `json:"skipped,omitempty"`
@@ -52,7 +53,10 @@ func copyTree(src, dst string) error {
 }
 
 func replaySeeds(verif, repo, prop string) []seedResult {
-	type seed struct{ id, patch string }
+	type seed struct {
+		id, patch string
+		benign    bool
+	}
 	var seeds []seed
 	dirs, _ := filepath.Glob(filepath.Join(verif, "seeded", "*", "meta.json"))
 	sort.Strings(dirs)
@@ -68,7 +72,7 @@ func replaySeeds(verif, repo, prop string) []seedResult {
 		if json.Unmarshal(b, &meta) != nil || meta.Property != prop {
 			continue
 		}
-		seeds = append(seeds, seed{meta.ID, filepath.Join(filepath.Dir(m), "patch.diff")})
+		seeds = append(seeds, seed{meta.ID, filepath.Join(filepath.Dir(m), "patch.diff"), false})
 	}
 	if b, err := os.ReadFile(filepath.Join(verif, "seeded", "fixrev", "index.json")); err == nil {
 		var idx map[string]struct {
@@ -83,16 +87,22 @@ func replaySeeds(verif, repo, prop string) []seedResult {
 			for _, h := range hs {
 				for _, p := range idx[h].Properties {
 					if p == prop {
-						seeds = append(seeds, seed{"fixrev-" + h, filepath.Join(verif, "seeded", "fixrev", h+".diff")})
+						seeds = append(seeds, seed{"fixrev-" + h, filepath.Join(verif, "seeded", "fixrev", h+".diff"), false})
 					}
 				}
 			}
 		}
 	}
+	// specificity: behaviour-preserving refactorings must leave every check silent
+	bs, _ := filepath.Glob(filepath.Join(verif, "seeded", "benign", "*.diff"))
+	sort.Strings(bs)
+	for _, b := range bs {
+		seeds = append(seeds, seed{"benign-" + strings.TrimSuffix(filepath.Base(b), ".diff"), b, true})
+	}
 	self, _ := os.Executable()
 	var out []seedResult
 	for _, s := range seeds {
-		res := seedResult{ID: s.id}
+		res := seedResult{ID: s.id, Benign: s.benign}
 		tmp, err := os.MkdirTemp("", "goacheck-replay-")
 		if err != nil {
 			res.Skipped = err.Error()
@@ -138,6 +148,10 @@ func replaySeeds(verif, repo, prop string) []seedResult {
 		switch {
 		case res.Skipped != "":
 			fmt.Printf("REPLAY %s %s skipped: %s\n", prop, res.ID, res.Skipped)
+		case res.Benign && res.Fired:
+			fmt.Printf("WARN false-alarm %s %s: a behaviour-preserving refactoring is reported by %s\n", prop, res.ID, strings.Join(res.Rules, ","))
+		case res.Benign:
+			fmt.Printf("REPLAY %s %s silent (behaviour-preserving refactoring)\n", prop, res.ID)
 		case res.Fired:
 			fmt.Printf("REPLAY %s %s detected by %s\n", prop, res.ID, strings.Join(res.Rules, ","))
 		default:
